@@ -38,7 +38,9 @@ func runC05(c *core.Ctx) {
 	// S1a NewInterceptedTrieNode
 	if fn := anchorF(c, pkg, "NewInterceptedTrieNode"); fn != nil {
 		mustPassChecked(c, fn, "C05/received-node-hash-is-content-hash", "NewInterceptedTrieNode", nil,
-			func(in ssa.Instruction, cc *ssa.CallCommon) bool { return isInvoke(cc, "setHash") && decodedBy(cc.Value, "decodeNode") },
+			func(in ssa.Instruction, cc *ssa.CallCommon) bool {
+				return isInvoke(cc, "setHash") && decodedBy(cc.Value, "decodeNode")
+			},
 			core.SuccessReturn, nil, "setHash() of the node decoded from the received bytes succeeds before the intercepted node is handed out")
 		// hash field derives from getHash() of the decoded node; node field is the decoded node
 		hashF := c.P.Field(pkg, "InterceptedTrieNode", "hash")
@@ -85,7 +87,9 @@ func runC05(c *core.Ctx) {
 			return true
 		}
 		mustPassChecked(c, fn, "C05/received-node-hash-is-content-hash", "trieNode", nil,
-			func(in ssa.Instruction, cc *ssa.CallCommon) bool { return isInvoke(cc, "setHash") && decodedBy(cc.Value, "decodeNode") },
+			func(in ssa.Instruction, cc *ssa.CallCommon) bool {
+				return isInvoke(cc, "setHash") && decodedBy(cc.Value, "decodeNode")
+			},
 			target, nil, "setHash() of the node decoded from the serialized bytes succeeds before it is handed to a syncer")
 	}
 	// S1c getNodeFromStorage
